@@ -22,7 +22,8 @@ Mix(f, g) == [n \in DOMAIN f \cup DOMAIN g |-> IF n \in DOMAIN f THEN f[n] ELSE 
 (* the property sets an object may be created with *)
 OwnSets == { Fn({}, "val"), Fn({"a"}, "val"), Fn({"a"}, "meth"), Fn({"a"}, "fn"), Fn({"b"}, "val"),
              Mix(Fn({"a"}, "val"), Fn({"b"}, "meth")), Fn({"_missing"}, "meth"),
-             Mix(Fn({"a"}, "meth"), Fn({"_missing"}, "meth")), Fn({"_p"}, "val"), Mix(Fn({"b"}, "fn"), Fn({"_p"}, "meth")) }
+             Mix(Fn({"a"}, "meth"), Fn({"_missing"}, "meth")), Fn({"_p"}, "val"), Mix(Fn({"b"}, "fn"), Fn({"_p"}, "meth")),
+             Mix(Fn({"a"}, "raiser"), Fn({"_missing"}, "meth")) }      \* "raiser": a method that is found and whose body raises a NoPropErr of its own
 
 Init == objs = <<>> /\ noise = <<>>
 (* tagged: the replay gives the object a unique `tag` property so that the language's structural == is identity;      *)
